@@ -45,6 +45,26 @@ def scenarios(draw):
                 r = S.noisy_read(src, "r%d" % k, g["chr"], g["strand"], t["exons"], src.choice(NOISE))
                 if r is None:
                     r, _t = S.read_from_chain(src, "r%d" % k, g["chr"], g["strand"], t["exons"], delta=delta)
+            if src.bool(0.15):
+                # the tail of the molecule aligned as an exon of its own (a T-rich block in front of a minus-strand read,
+                # an A-rich block behind a plus-strand read) instead of being soft-clipped
+                ln, gap = src.int(18, 40), src.int(120, 600)
+                cg = [list(x) for x in r["cg"]]
+                if g["strand"] == "-":
+                    if cg and cg[0][0] == 4:
+                        cg = cg[1:]
+                        r.pop("sl", None)
+                    if r["p"] - gap - ln > 5:
+                        r["cg"] = [[0, ln], [3, gap]] + cg
+                        r["p"] -= gap + ln
+                        r["b0seq"] = "T"
+                else:
+                    if cg and cg[-1][0] == 4:
+                        cg = cg[:-1]
+                        r.pop("sr", None)
+                    r["cg"] = cg + [[3, gap], [0, ln]]
+                    r["bNseq"] = "A"
+                r.pop("mm", None)
             if r["p"] + 10 < S.chrom_len(sc, g["chr"]) and R.cigar_blocks(r["p"], r["cg"])[-1][1] < S.chrom_len(sc, g["chr"]):
                 sc["reads"].append(r)
     sc["opts"] = ["--data_type", dt, "--no_gzip", "--threads", "1", "--splice_correction_strategy", strat,
